@@ -302,7 +302,7 @@ def eval_pure(prog, body, args, depth=0):
 
 
 def run(ctx, prog):
-    ctx.not_decided = ['OrderedF64::from_f64 preserves f64 order (bit-level fact)', 'behaviour over histories of inserts / updates / compaction']
+    ctx.not_decided = ['OrderedF64::from_f64 preserves f64 order outside the evaluated table of IEEE edge values (C11.R5 decides the table only)', 'behaviour over histories of inserts / updates / compaction']
     # ------------------------------------------------------------------ R1a/b range table
     ctx.rule('C11.R1', 'table agreement: per range-bound variant the reference operator (numeric and lexical branch of matches_range) '
                        'corresponds to the BTreeMap range bounds of bitmap_for_range_numeric / bitmap_for_range_lex '
@@ -390,8 +390,47 @@ def run(ctx, prog):
     pn = ctx.body('C11.R1', 'hnsw_backend::parse_indexable_numeric')
     same_parser = any(c.callee and c.callee.endswith('::parse') and 'f64' in ' '.join(c.ga) for c in pn.calls) and \
         sum(1 for c in mr.calls if c.callee and c.callee.endswith('::parse') and 'f64' in ' '.join(c.ga)) == 2
-    ctx.inst('C11.R1', 'number parsing', 'both sides use str::parse::<f64>', same_parser and bool(pn.calls_to('core::result::Result::ok')),
+    # (`.ok()` or an explicit match on the parse result: what is returned is the parse's Ok value or None)
+    pn_ret = flow.render(flow.Origin(pn).of_local(0))
+    ctx.inst('C11.R1', 'number parsing', 'both sides use str::parse::<f64>', same_parser and (bool(pn.calls_to('core::result::Result::ok')) or bool(re.search(r'Option::Some\{str::parse\(arg:\w+\)@Ok→Ok\.0\}', pn_ret))),
              'parse_indexable_numeric = str::parse::<f64>().ok(); matches_range parses value and bound with parse::<f64>')
+    # ... and both sides hand the parser the SAME string: the stored value / the bound as it is.  A string transformation in front of the parse on one side only
+    # (trim, case folding, a slice) makes a value numeric for the index and a string for the reference, or the other way round
+    def _str_transforms(b_, e_, depth=0):
+        out = []
+        for x in flow.calls_in(e_):
+            cal = x[1]
+            nm = cal.rsplit('::', 1)[-1]
+            if re.search(r'(^|[< ])(core::str::|alloc::str::|alloc::string::)', cal) and nm not in (
+                    'new', 'from', 'to_string', 'to_owned', 'clone', 'as_str', 'as_ref', 'borrow', 'deref', 'into', 'as_mut_str', 'default', 'parse'):
+                out.append(flow.short(cal))
+            cb_ = prog.resolve_local(cal)
+            if cb_ is not None and depth < 2 and cb_.kind in ('Fn', 'AssocFn'):
+                out += _str_transforms(cb_, flow.Origin(cb_).of_local(0), depth + 1)
+        return out
+    pno = flow.Origin(pn)
+    pn_parse = [c for c in pn.calls if c.callee and c.callee.endswith('::parse') and 'f64' in ' '.join(c.ga)]
+    pn_args = [flow.render(pno.of_operand(c.args[0])) for c in pn_parse]
+    pn_tr = [t_ for c in pn_parse for t_ in _str_transforms(pn, pno.of_operand(c.args[0]))]
+    idx_calls = prog.callers_of('hnsw_backend::parse_indexable_numeric')
+    idx_tr = [(c.body.short.split('::')[-1], t_) for c in idx_calls for t_ in _str_transforms(c.body, flow.Origin(c.body).of_operand(c.args[0]))]
+    ok_idx = bool(pn_parse) and all(re.match(r'^arg:\w+$', a) for a in pn_args) and not pn_tr and not idx_tr and bool(re.search(r'str::parse\(arg:\w+\)', flow.render(pno.of_local(0)))) and len(idx_calls) >= 3
+    ctx.inst('C11.R1', 'number parsing', 'the index parses the stored value and the bound as they are', ok_idx,
+             ('parse_indexable_numeric parses %s%s' % (pn_args, '; callers transform their argument: %s' % idx_tr if idx_tr else '')) if not ok_idx else
+             'parse_indexable_numeric = parse(<its argument>); %d callers pass the map value / the bound string unchanged' % len(idx_calls))
+    mro = flow.Origin(mr)
+    mr_parse = [c for c in mr.calls if c.callee and c.callee.endswith('::parse') and 'f64' in ' '.join(c.ga)]
+    mr_args = sorted(flow.render(mro.of_operand(c.args[0])) for c in mr_parse)
+    mr_tr = [t_ for c in mr_parse for t_ in _str_transforms(mr, mro.of_operand(c.args[0]))]
+    ok_ref = len(mr_parse) == 2 and not mr_tr and any(re.match(r'^HashMap::get\(arg:\w+, arg:\w+→RangeMatch\.key\)@Some→Some\.0$', a) for a in mr_args) and any(re.match(r'^metadata_filter::get_bound_value\(arg:\w+\)$', a) for a in mr_args)
+    ctx.inst('C11.R1', 'number parsing', 'the reference parses the stored value and the bound as they are', ok_ref,
+             'matches_range parses %s%s' % ([a[:90] for a in mr_args], '; through %s' % mr_tr if mr_tr else ''))
+    for fn_, rx_ in (('hnsw_backend::range_bound_value', r'^arg:\w+@(Gte|Gt|Lte|Lt)→\1\.0$'),
+                     ('metadata_filter::get_bound_value', r'^arg:\w+→RangeMatch\.bound@Some→Some\.0@(Gte|Gt|Lte|Lt)→\1\.0$|^String::new\(\)$')):
+        gb = ctx.body('C11.R1', fn_)
+        alts_ = [flow.render(a) for a in flow.top_alternatives(flow.Origin(gb).of_local(0))]
+        ctx.inst('C11.R1', gb.short, 'the bound string of every variant is returned as it is', len(alts_) >= 4 and all(re.match(rx_, a) for a in alts_),
+                 'returns %s' % sorted(alts_))
     # NaN handling of the numeric index agrees with IEEE comparisons being false
     bn = ctx.body('C11.R1', 'MetadataInvertedIndex::bitmap_for_range_numeric')
     bno = flow.Origin(bn, stop_at_vars=True)
@@ -614,4 +653,167 @@ def run(ctx, prog):
                      ('additional skip condition(s): %s' % [e[:90] for e in extra]) if extra else 'guards: %s; insert_doc(%s)' % ([m[:50] for m in must], ', '.join(a[:40] for a in args)))
         users = sorted(set(c.body.short.split('::{')[0].split('::')[-1] for c in prog.callers_of('MetadataInvertedIndex::rebuild_from')))
         ctx.inst('C11.R4', rb.short, 'used by construction, recovery and tombstone compaction', set(users) >= {'recover_with_hnsw_params_and_mode', 'compact_tombstones'}, 'callers: %s' % users)
+    # ------------------------------------------------------------------ R5 index keys order like the numbers they stand for (finite table)
+    ctx.rule('C11.R5', 'the numeric index is a BTreeMap over OrderedF64 keys while the reference predicate compares f64 values (cells of C11.R1), so key order must embed '
+                       'f64 order: for all a, b of a fixed table of IEEE-754 edge values (±0, ±subnormal, ±1, decimals, ±f64::MAX, ±inf)  key(a) < key(b) ⇔ a < b  and  '
+                       'key(a) = key(b) ⇔ a == b — in particular −0.0 and +0.0, equal for the reference, share one key. Decided by evaluating the MIR of '
+                       'OrderedF64::from_f64 on the table (nothing is executed); keys are compared the way the derived Ord does (unsigned integer order of field 0). A '
+                       'failing pair is a stored value / range bound on which index and reference disagree; order outside the table is not decided')
+    kf = ctx.body('C11.R5', 'OrderedF64::from_f64')
+    TABLE5 = [float('-inf'), -1.7976931348623157e308, -1e300, -2.5, -1.0, -2.2250738585072014e-308, -5e-324, -0.0, 0.0, 5e-324, 2.2250738585072014e-308, 0.1, 1.0,
+              2.5, 3.0, 1e300, 1.7976931348623157e308, float('inf')]
+    keys5 = {}
+    why5 = None
+    try:
+        for n_, v_ in enumerate(TABLE5):
+            r_ = eval_pure(prog, kf, [v_])
+            while isinstance(r_, tuple) and len(r_) == 1:
+                r_ = r_[0]
+            if not isinstance(r_, int) or isinstance(r_, bool):
+                raise _NoEval('the key is not a single integer: %r' % (r_,))
+            keys5[n_] = r_
+    except _NoEval as e_:
+        why5 = str(e_)
+    if why5 is not None:
+        ctx.missing('C11.R5', 'OrderedF64::from_f64 in the evaluable MIR fragment (%s)' % why5)
+    else:
+        import math
+        def _f(v_):
+            return ('-0.0' if v_ == 0 and math.copysign(1, v_) < 0 else repr(v_))
+        eq_bad = [(a_, b_) for a_ in keys5 for b_ in keys5 if a_ < b_ and (TABLE5[a_] == TABLE5[b_]) != (keys5[a_] == keys5[b_])]
+        lt_bad = [(a_, b_) for a_ in keys5 for b_ in keys5 if a_ != b_ and (TABLE5[a_] < TABLE5[b_]) != (keys5[a_] < keys5[b_])]
+        lt_bad = [x for x in lt_bad if x not in eq_bad and (x[1], x[0]) not in eq_bad]
+        ctx.inst('C11.R5', kf.short, 'values equal for the reference share one index key (-0.0 and +0.0)', not eq_bad,
+                 ('key(%s) = %#018x but key(%s) = %#018x although the reference compares them equal: a range bound of the one sign misses / wrongly takes a stored zero of the other' % (
+                     _f(TABLE5[eq_bad[0][0]]), keys5[eq_bad[0][0]], _f(TABLE5[eq_bad[0][1]]), keys5[eq_bad[0][1]])) if eq_bad else
+                 'key(-0.0) = key(0.0) = %#018x; %d table values, distinct values have distinct keys' % (keys5[TABLE5.index(0.0)], len(TABLE5)))
+        ctx.inst('C11.R5', kf.short, 'key order agrees with f64 order on the table of IEEE edge values', not lt_bad,
+                 ('%s < %s is %s but key order says %s (keys %#018x, %#018x)' % (_f(TABLE5[lt_bad[0][0]]), _f(TABLE5[lt_bad[0][1]]), TABLE5[lt_bad[0][0]] < TABLE5[lt_bad[0][1]],
+                                                                             keys5[lt_bad[0][0]] < keys5[lt_bad[0][1]], keys5[lt_bad[0][0]], keys5[lt_bad[0][1]])) if lt_bad else
+                 '%d ordered pairs agree' % (len(TABLE5) * (len(TABLE5) - 1)))
+    oc = [b_ for b_ in prog.bodies.values() if re.search(r'^<.*hnsw_backend::OrderedF64 as core::cmp::Ord>::cmp$', b_.id)]
+    if not oc:
+        ctx.missing('C11.R5', 'impl Ord for OrderedF64')
+    for b_ in oc:
+        o5 = flow.Origin(b_)
+        cs = [c for c in b_.calls if c.callee and re.search(r'cmp::(impls::)?(Ord::)?cmp$|Ord>::cmp$', c.callee)]
+        a5 = [flow.render(o5.of_operand(a)) for a in cs[0].args] if len(cs) == 1 else []
+        ctx.inst('C11.R5', 'OrderedF64', 'keys are compared as the integers they wrap (self.0 with other.0, in this order)', a5 == ['arg:self→OrderedF64.0', 'arg:other→OrderedF64.0'],
+                 'Ord::cmp compares %s' % (a5 or 'something else than one integer comparison'))
+    # ... and it is this key function that both sides of the numeric index use: postings are filed and removed under from_f64(value), ranges are taken from from_f64(bound)
+    users5 = sorted(set(c.body.short.split('::')[-1] for c in prog.callers_of('OrderedF64::from_f64')))
+    ctx.inst('C11.R5', 'OrderedF64::from_f64', 'one key function for filing, removing and ranging', set(users5) >= {'insert_doc', 'remove_doc', 'bitmap_for_range_numeric'}, 'callers: %s' % users5)
+    # ------------------------------------------------------------------ R6 what is taken out of the index is what was put in
+    ctx.rule('C11.R6', 'remove_doc / replace_doc take a slot\'s postings out by walking the map they are GIVEN (C11.R4: under the conditions insert_doc filed them), so that map '
+                       'must be the slot\'s stored metadata, read from DocumentStore.metadata[slot] before it is overwritten: at every call site in HnswBackend the pre-image '
+                       'argument originates, on every path, from a read of DocumentStore.metadata (directly, through the closure that clones it, or through the queue of '
+                       '(slot, old map) pairs a later loop drains) — never a fresh map or the caller\'s new map. With an empty pre-image the old postings stay filed for a '
+                       'live slot: Exact / In / Range / Not over the replaced values keep selecting the document and a filtered batch delete removes it')
+
+    def _spine_is_store(e):
+        """Receiver chain of e (first argument of calls, base of projections) ends in a read of the field DocumentStore.metadata."""
+        for _ in range(12):
+            t_ = e[0]
+            if t_ == 'field' and e[2].endswith('DocumentStore.metadata'):
+                return True
+            if t_ in ('field', 'index', 'downcast', 'cast'):
+                e = e[1]
+            elif t_ == 'call' and e[2]:
+                e = e[2][0]
+            else:
+                return False
+        return False
+
+    def _is_queue(b_, ovb, l_):
+        return any(c.callee and c.callee.endswith('::push') and c.args and ovb.of_operand(c.args[0])[:2] == ('var', l_) for c in b_.calls)
+
+    def _expand(b_, ovb, e, depth=0):
+        """The variable-level origin with named copies substituted by their definitions (a local that is pushed into — a queue — keeps its identity)."""
+        t_ = e[0]
+        if depth > 10:
+            return e
+        if t_ == 'var':
+            if _is_queue(b_, ovb, e[1]):
+                return e
+            n_ = ovb.of_local(e[1])
+            return _expand(b_, ovb, n_, depth + 1) if n_ != e else e
+        if t_ in ('field', 'downcast', 'cast', 'index'):
+            base = _expand(b_, ovb, e[1], depth + 1)
+            if t_ == 'field' and base[0] == 'agg' and base[1] == 'tuple' and re.match(r'^\.\d+$', e[2]) and int(e[2][1:]) < len(base[2]):
+                return base[2][int(e[2][1:])]
+            return (t_, base) + tuple(e[2:])
+        if t_ == 'call':
+            return ('call', e[1], [_expand(b_, ovb, a, depth + 1) for a in e[2]]) + tuple(e[3:])
+        if t_ == 'agg':
+            return ('agg', e[1], [_expand(b_, ovb, a, depth + 1) for a in e[2]]) + tuple(e[3:])
+        if t_ == 'phi':
+            return ('phi', [_expand(b_, ovb, a, depth + 1) for a in e[1]])
+        return e
+
+    def _preimage_leaves(b_, ovb, e, depth=0):
+        """Alternatives of a value with named copies expanded, Option::map closures entered and queue elements traced back to what was pushed: list of (is_store, text)."""
+        if depth > 6:
+            return [(False, flow.render(e)[:80])]
+        out = []
+        for a in flow.top_alternatives(_expand(b_, ovb, e)):
+            while a[0] == 'cast':
+                a = a[1]
+            if _spine_is_store(a):
+                out.append((True, 'DocumentStore.metadata[..]'))
+                continue
+            # peel the projections down to  <something>@Some→Some.0
+            proj, cur = [], a
+            while cur[0] in ('field', 'index', 'cast') and not (cur[0] == 'field' and cur[1][0] == 'downcast'):
+                proj.append(cur[2] if cur[0] == 'field' else '[]')
+                cur = cur[1]
+            if cur[0] == 'field' and cur[1][0] == 'downcast' and cur[1][2] == 'Some':
+                proj = list(reversed(proj))
+                srcs = [x for x in flow.top_alternatives(cur[1][1])]
+                handled = bool(srcs)
+                sub = []
+                for src in srcs:
+                    if src[0] == 'agg' and src[1].endswith('Option::Some') and len(src[2]) == 1 and not proj:
+                        sub += _preimage_leaves(b_, ovb, src[2][0], depth + 1)      # Some(x) built right here
+                    elif src[0] == 'agg' and src[1].endswith('Option::None'):
+                        pass                                                          # no pre-image on this path: nothing is removed
+                    elif src[0] == 'call' and flow.short(src[1]) == 'Option::map' and len(src[2]) == 2 and src[2][1][0] == 'agg' and src[2][1][1].startswith('closure:') and not proj:
+                        cid = src[2][1][1].split(':', 1)[1]
+                        cb_ = prog.bodies.get(cid) or next((q for q in prog.family(b_) if q.id == cid), None)
+                        if cb_ is None:
+                            handled = False
+                        else:
+                            oc_ = flow.Origin(cb_, stop_at_vars=True)
+                            sub += _preimage_leaves(cb_, oc_, oc_.of_local(0), depth + 1)
+                    elif src[0] == 'call' and src[1].endswith('::next') and src[2] and src[2][0][0] == 'var':
+                        pushes = [c for c in b_.calls if c.callee and c.callee.endswith('::push') and len(c.args) > 1 and ovb.of_operand(c.args[0])[:2] == ('var', src[2][0][1])]
+                        if not pushes:
+                            handled = False
+                        for c in pushes:
+                            v_ = _expand(b_, ovb, ovb.of_operand(c.args[1]))
+                            ok_ = True
+                            for pj in proj:
+                                if re.match(r'^\.\d+$', pj) and v_[0] == 'agg' and v_[1] == 'tuple' and int(pj[1:]) < len(v_[2]):
+                                    v_ = v_[2][int(pj[1:])]
+                                else:
+                                    ok_ = False
+                            sub += _preimage_leaves(b_, ovb, v_, depth + 1) if ok_ else [(False, 'component %s of what is pushed at %s' % (''.join(proj), c.loc))]
+                    else:
+                        handled = False
+                if handled:
+                    out += sub
+                    continue
+            out.append((False, flow.render(a)[:90]))
+        return out
+    n_pre = 0
+    for c in sorted(prog.callers_of('MetadataInvertedIndex::remove_doc', 'MetadataInvertedIndex::replace_doc'), key=lambda c: (c.body.short, c.loc)):
+        if 'hnsw_backend::HnswBackend::' not in c.body.id or len(c.args) < 3:
+            continue
+        n_pre += 1
+        ovb = flow.Origin(c.body, stop_at_vars=True)
+        leaves = _preimage_leaves(c.body, ovb, ovb.of_operand(c.args[2]))
+        bad6 = sorted(set(t_ for ok_, t_ in leaves if not ok_))
+        ctx.inst('C11.R6', c.body.short, 'the map given to %s as pre-image is the stored metadata of the slot' % flow.short(c.callee).split('::')[-1], bool(leaves) and not bad6,
+                 ('on some path the pre-image is %s — not what insert_doc filed for the slot: its postings are not taken out' % ' / '.join(bad6)) if bad6 or not leaves else
+                 'every alternative is read from DocumentStore.metadata[slot] (%d)' % len(leaves))
+    ctx.floor('C11.R6', 'pre-image arguments of remove_doc / replace_doc in HnswBackend', n_pre, 4, 'insert (overwrite), update_metadata, delete, batch_delete')
     ctx.stat('functions_analysed', len(set(i['key'].split(' | ')[1] for i in ctx.instances)))
